@@ -73,7 +73,7 @@ def run(chk, replay=None):
                             "LM on 7-bit ASCII passwords, as the property states"]
         # ---- ValueSemantics.tla: "for every input" = in any history; results are values (the design-level statement behind the
         # history layers of the harness: Retain, ReusedInput/arena pass, overwritten inputs, reverse-order pass, reused receivers)
-        vs = dict(POOLED="FALSE", ALIAS="FALSE", CACHE="FALSE", KEEP="FALSE")
+        vs = dict(POOLED="FALSE", ALIAS="FALSE", CACHE="FALSE", KEEP="FALSE", SHARED="FALSE")
         chk.add_tlc("value_semantics", vlib.run_tlc("ValueSemantics", vlib.cfg("VS_values.cfg", **vs), timeout=300))
         if chk.tier == "thorough":
             refuted = {}
@@ -83,6 +83,8 @@ def run(chk, replay=None):
                 if g.violation != "Inv":
                     raise vlib.Infra("vacuity guard: ValueSemantics deviation %s not refuted" % dev)
             chk.part("value_semantics_deviations_refuted", **refuted)
+        # ---- the same entry points called by 8 goroutines at once (race-detector build): results as when called alone
+        vlib.parallel_callers(chk, "md4,hash")
     finally:
         shutil.rmtree(d, ignore_errors=True)
 
